@@ -440,6 +440,110 @@ def _maxmin_run(fb, f, outcome, kindmode):
     return {"events": ev, "result": res, "toks": toks}
 
 
+def _maxmin_value_run(fb, f, values, kindmode):
+    """like _maxmin_run, but every comparison of two of the three opaque numbers — `<` `<=` `>` `>=` or `partial_cmp`, in whatever
+    order and between whichever operands the code asks — is answered from the numeric values assigned to them (ties included)"""
+    args = [_num(fb, "N%d" % i) for i in range(3)]
+    toks = [a.fields[0] for a in args]
+    vb = {n: i for i, n in fb.variants("values::NumberBinaryOperand")}
+    ev = []
+
+    def numlike(x):
+        return isinstance(x, Tok) and x.kind in ("number", "promoted")
+
+    def val(x):
+        return values[int(str(_base(x).tag)[1:])]
+
+    def icpt(mc, c, a, tt, g):
+        end = c.rsplit("::", 1)[-1]
+        a_ = [_normalise_promoted(fb, x) for x in a]
+        if end in ("lt", "le", "gt", "ge", "partial_cmp", "eq", "ne") and len(a_) == 2 and all(numlike(x) for x in a_):
+            l, r = val(a_[0]), val(a_[1])
+            ev.append((end, _base(a_[0]).tag, _base(a_[1]).tag))
+            if end == "partial_cmp":
+                o_ = Enum((l > r) - (l < r), [])          # std::cmp::Ordering: Less = -1, Equal = 0, Greater = 1
+                o_.name, o_.adt = {-1: "Less", 0: "Equal", 1: "Greater"}[o_.variant], "std::cmp::Ordering"
+                return some(o_)
+            return {"lt": l < r, "le": l <= r, "gt": l > r, "ge": l >= r, "eq": l == r, "ne": l != r}[end]
+        if c.endswith("values::upcast_oprands"):
+            pr = a[0]
+            if isinstance(pr, list) and len(pr) == 2:
+                pr = [_normalise_promoted(fb, x) for x in pr]
+            if isinstance(pr, list) and len(pr) == 2 and all(numlike(x) for x in pr):
+                pair = Tok("pair", (pr[0], pr[1]))
+                pair.kindmode = kindmode
+                if kindmode is None:
+                    return pair
+                n = 4 if kindmode == "Rational" else 2
+                side_of = {i: sd for sd, ix in _SIDES[kindmode].items() for i in ix}
+                e = Enum(vb[kindmode], [Tok("part", (pair, side_of[i], i)) for i in range(n)])
+                e.name = kindmode
+                e.pair = pair
+                return e
+            return UNKNOWN
+        if c.endswith("NumberBinaryOperand::lhs") or c.endswith("NumberBinaryOperand::rhs"):
+            x = a[0]
+            if isinstance(x, Enum) and getattr(x, "pair", None) is not None:
+                x = x.pair
+            if isinstance(x, Tok) and x.kind == "pair":
+                return Tok("promoted", (end, x))
+            return UNKNOWN
+        return NOT
+    mc = Machine(fb, intercept=icpt, max_visits=6)
+    res = mc.run(f, [list(args)])
+    return {"events": ev, "result": res, "toks": toks}
+
+
+def rule_maxmin_values(ctx, rule_op, rule_contagion):
+    """(max N0 N1 N2) / (min ..) with the three opaque numbers given the values 0, v1, v2 for v1, v2 in {-1, 0, 1} (ties in every
+    position): whatever comparisons the code makes are answered from the values; the result is a numerically extreme operand, and
+    it is the operand as promoted together with the others — never one as it came in (an exact number that ties with an inexact one)"""
+    fb = ctx.fb()
+    from .ctx import where_of
+    import itertools
+    regs = {r["name"]: r for r in registry.read(fb)}
+    decided = 0
+    for name in ("max", "min"):
+        if name not in regs or not regs[name]["target"]:
+            continue
+        f = fb.by_path(regs[name]["target"])
+        for v1, v2 in itertools.product((-1, 0, 1), repeat=2):
+            values = [0, v1, v2]
+            key = "%s/values=0,%d,%d" % (name, v1, v2)
+            d = None
+            for kind in (None, "Integer", "Rational", "Real"):
+                try:
+                    d = _maxmin_value_run(fb, f, values, kind)
+                    break
+                except (absint.Stuck, absint.Loop, Scrambled) as e:
+                    why = str(e)
+            if d is None:
+                ctx.undecided(rule_op, key, "cannot follow %s (%s)" % (f.name, why[:200]), where_of(f))
+                continue
+            nums = find_enum(d["result"], "Number")
+            got = nums[0].fields[0] if nums and nums[0].fields else None
+            got = _normalise_promoted(fb, got)
+            if not isinstance(got, Tok) or got.kind not in ("number", "promoted"):
+                ctx.undecided(rule_op, key, "the result of %s is not one of its operands (%r)" % (name, got), where_of(f))
+                continue
+            decided += 1
+            ext = max(values) if name == "max" else min(values)
+            gv = values[int(str(_base(got).tag)[1:])]
+            ctx.inst(rule_op, key, {"result": repr(got), "comparisons": [list(e) for e in d["events"]]})
+            ctx.oblige(gv == ext)
+            if gv != ext:
+                ctx.report(rule_op, key, "(%s N0 N1 N2) with N0 = 0, N1 = %d, N2 = %d returns %r (value %d), expected an operand of value %d" % (
+                    name, v1, v2, got, gv, ext), where_of(f))
+            prom = got.kind == "promoted"
+            ctx.inst(rule_contagion, key, {"result_is_promoted": prom})
+            ctx.oblige(prom)
+            if not prom:
+                ctx.report(rule_contagion, key, "(%s N0 N1 N2) with N0 = 0, N1 = %d, N2 = %d returns an operand as it came in (%r), not the one "
+                           "promoted together with the operand it was compared with: when that operand is exact and ties with an inexact "
+                           "one — (%s 2 2.0) — the result stays exact" % (name, v1, v2, got, name), where_of(f))
+    return decided
+
+
 def maxmin_table(fb, name):
     regs = {r["name"]: r for r in registry.read(fb)}
     if name not in regs or not regs[name]["target"]:
